@@ -14,7 +14,10 @@ CHECKS = {
         text="Machine-checked proof that the crate's lookup order over ANY structurally sound superversion returns the newest visible "
              "version for every key and snapshot (sv_get_raw_sound), that the decidable certificates check_inv_sv/content_agrees imply "
              "reads = ordered-map Spec for all keys (C01_certified_point_reads) and that the compaction stream never changes the top view "
-             "(cstream_top_view); every generated real execution is dumped in full after every operation and certified with the extracted "
+             "(cstream_top_view); the unbounded tree state machine keeps the invariant under ANY compaction choice meeting a stated obligation, and the default strategy "
+             "Leveled (compaction/leveled/mod.rs transliterated with the floating-point scores as oracles) provably always meets it and keeps the shape it needs by itself "
+             "(C01_leveled_move_ok / _merge_ok / _tree_ok / _tree_reads; refuted for multi-run levels that only MoveDown/PullDown can build); point reads of a table stored as data "
+             "blocks + block index are exact for every cut into blocks (Model/BlockIndex.v); every generated real execution is dumped in full after every operation and certified with the extracted "
              "checkers, and every get/contains_key/size_of is compared with the Spec.",
         note=NOTE_TB + "Bloom filter = arbitrary no-false-negative predicate here (byte level in C12); sequential histories; table contents are taken from the crate's own iterators.",
         design="7/C01", technique="Coq proof (refinement of the read path to an ordered-map spec, stream invariants) + extracted-checker correspondence on full state dumps"),
@@ -67,7 +70,7 @@ CHECKS = {
         note=NOTE_TB + "quick_cache is modelled as an arbitrary coherent partial map (sound over-approximation), not verified; compression feature (lz4) is not enabled in this build.",
         design="7/C11", technique="Coq proof (reads factor through logical content; cache as arbitrary coherent map) + multi-configuration / shared-cache differential"),
     "C12": dict(
-        text="Byte-exact Coq models of the data block (full/truncated items, restart intervals, binary index with 2/4-byte step, hash index with FREE/CONFLICT markers, trailer), block header, Bloom filter (wrapping double hashing mod 2^64) and varints with proofs, for every hash function: forward and backward scans return the written items, point_read returns the first item with the key and a smaller seqno through all three lookup paths, no false negatives, round trips. Every run compares the crate's own encoders BYTE FOR BYTE with the extracted model on generated item streams (adversarial key shapes, multi-version slabs, large values), replays every (key, seqno+-1) point read incl. absent neighbours, and reads real table files back exhaustively (point reads at every seqno, ranged scans with pull patterns) under random writer settings after a reopen.",
+        text="Byte-exact Coq models of the data block (full/truncated items, restart intervals, binary index with 2/4-byte step, hash index with FREE/CONFLICT markers, trailer), block header, Bloom filter (wrapping double hashing mod 2^64) and varints with proofs, for every hash function: forward and backward scans return the written items, point_read returns the first item with the key and a smaller seqno through all three lookup paths, no false negatives, round trips; and the layer between block and table (Model/BlockIndex.v: block index full / volatile / two-level, Table::get + point_read, the ranged double-ended table iterator, the compaction scanner) is exact for EVERY way of cutting the sorted items into non-empty blocks, also when the versions of one key straddle block boundaries (C12_every_cut_is_exact). The block structure of every real table (index handles + block items, read through a cfg(lsm_verif) hook) is validated with the extracted btable_check (sound by C12_btable_check_ok) and the crate's table-level point reads at every (key, seqno) boundary are compared with the extracted btable_get. Every run compares the crate's own encoders BYTE FOR BYTE with the extracted model on generated item streams (adversarial key shapes, multi-version slabs, large values), replays every (key, seqno+-1) point read incl. absent neighbours, and reads real table files back exhaustively (point reads at every seqno, ranged scans with pull patterns) under random writer settings after a reopen.",
         note=NOTE_TB + "xxh3 is a parameter (real hash values are passed in as data); the index block and partitioned index/filter are covered only by the table read-back differential, not by a byte-level theorem; mixed next/next_back inside one block is proved only for pure forward / pure backward (mixed: bounded check by the proof worker).",
         design="7/C12", technique="Coq proof (byte-level codec round trips and lookup correctness) + byte-equality differential with the crate's encoders"),
     "C13": dict(
